@@ -84,7 +84,9 @@ impl ConfigResolver<'_> {
                 if self.opt.no_editorconfig {
                     Ok(self.default_configuration)
                 } else {
+                    // Command line options take precedence over the values found in .editorconfig
                     editorconfig::parse(self.default_configuration, path)
+                        .map(|config| load_overrides(config, self.opt))
                         .context("could not parse editorconfig")
                 }
                 #[cfg(not(feature = "editorconfig"))]
@@ -110,7 +112,9 @@ impl ConfigResolver<'_> {
                     if self.opt.no_editorconfig {
                         Ok(self.default_configuration)
                     } else {
+                        // Command line options take precedence over the values found in .editorconfig
                         editorconfig::parse(self.default_configuration, &PathBuf::from("*.lua"))
+                            .map(|config| load_overrides(config, self.opt))
                             .context("could not parse editorconfig")
                     }
                     #[cfg(not(feature = "editorconfig"))]
